@@ -116,7 +116,8 @@ pub fn run_check(prop: &str, tier: &str) -> i32 {
     let mut report = Report::new(prop, tier, "model_checking");
     match prop {
         "C01" => {
-            let s = suites::all_suites(thorough);
+            let mut s = suites::all_suites(thorough);
+            s.sort_by_key(|x| (x.name.starts_with("focus"), x.cfg.persistent));
             seq_check(prop, tier, s, &["C01"], budget, &mut report);
         }
         "C02" => {
@@ -212,19 +213,19 @@ pub fn run_check(prop: &str, tier: &str) -> i32 {
         }
         "C16" => {
             // (1) cache FSM, (2) cache on/off differential over persistent SEQ suites
-            c16::run_fsm(tier, budget * 0.3, &mut report);
-            let mut s = pick(&["focus-v3", "focus-v3-ttl", "disk-v3", "disk-v3-ttl", "edge-v3"], thorough);
+            c16::run_fsm(tier, budget * 0.2, &mut report);
+            let mut s = pick(&["disk-v3-ttl", "disk-v3", "edge-v3", "focus-v3", "focus-v3-ttl"], thorough);
             for suite in s.iter_mut() {
                 let mut off = suite.cfg;
                 off.cache = false;
                 suite.shadow = Some(off);
                 suite.name = format!("{}~nocache", suite.name);
             }
-            seq_check(prop, tier, s, &["C16", "C01", "C11", "C14"], budget * 0.4, &mut report);
-            schedprops::run_programs(concprogs::warm_programs(false), if thorough { 3 } else { 2 }, 4000, budget * 0.3, &schedprops::judge_linearizable, None, &["C16", "C07", "C08", "C14"], &mut report);
+            seq_check(prop, tier, s, &["C16", "C01", "C11", "C14"], budget * 0.55, &mut report);
+            schedprops::run_programs(concprogs::warm_programs(false), if thorough { 3 } else { 2 }, 4000, budget * 0.25, &schedprops::judge_linearizable, None, &["C16", "C07", "C08", "C14"], &mut report);
         }
         "C11" => {
-            let s = pick(&["mem-ttl", "disk-v3-ttl", "disk-v1-ttl", "focus-v3-ttl", "focus-v2-ttl", "focus-v3-ttl-nocache", "ts-mem"], thorough);
+            let s = pick(&["mem-ttl", "ts-mem", "disk-v1-ttl", "disk-v3-ttl", "focus-v2-ttl", "focus-v3-ttl-nocache", "focus-v3-ttl"], thorough);
             seq_check(prop, tier, s, &["C11", "C01", "C14"], budget * 0.5, &mut report);
             // sweeper vs writers renewing / replacing the key, all interleavings within the bound
             let bound = if thorough { 3 } else { 2 };
